@@ -130,6 +130,26 @@ def programs(thorough):
                                ("node", "q", ("unique", None, "ident", True), ("sm",)), ("connect", "q", "st")), ("a", "st")))
     progs.append(("feedback", (("src", "a"), ("src", "st"), ("node", "z", ("cl", (0,), "int"), ("a", "st")), ("node", "sm", ("starmap", "add"), ("z",)),
                                ("node", "q", ("unique", 2, "ident", True), ("sm",)), ("connect", "q", "st")), ("a", "st")))
+    # feedback through every stateful node: union(s, back) -> X -> [tsum] -> map(nxt) -> unique -> back
+    # (re-entrant update: the node is entered again while its own emission is still in progress)
+    fb = [(("acc", "add", None, False), False), (("acc", "add", 0, False), False), (("acc", "accrs", 0, True), False),
+          (("sw", 2, True), True), (("sw", 2, False), True), (("partition", 2, None), True), (("punique", 2, "parity", "last"), True),
+          (("unique", 2, "parity", True), False), (("slice", 1, None, 2), False), (("filter", "odd"), False),
+          (("partition", 1, None), True), (("sw", 1, True), True)]
+    for spec, tup in fb:
+        items = [("src", "s"), ("src", "back"), ("node", "u", ("union",), ("s", "back")), ("node", "x", spec, ("u",))]
+        up = "x"
+        if tup:
+            items.append(("node", "t", ("map", "tsum"), ("x",)))
+            up = "t"
+        items += [("node", "m", ("map", "nxt"), (up,)), ("node", "q", ("unique", None, "ident", True), ("m",)), ("connect", "q", "back")]
+        progs.append(("feedback", tuple(items), ("s",)))
+    # feedback into one input of a join
+    # (zip_latest is left out: while it drains its queue a re-entrant arrival legitimately changes
+    # "the latest" value for the tuples still to be emitted; the batch reference would be too strict)
+    for j in (("zip", ()), ("cl", None, "")):
+        progs.append(("feedback", (("src", "a"), ("src", "st"), ("node", "z", j, ("a", "st")), ("node", "sm", ("starmap", "add"), ("z",)),
+                                   ("node", "m", ("map", "nxt"), ("sm",)), ("node", "q", ("unique", None, "ident", True), ("m",)), ("connect", "q", "st")), ("a", "st")))
     return progs
 
 
